@@ -228,7 +228,7 @@ func genC01(t *rapid.T) *Case {
 		c.Ops = append(c.Ops, Op{K: "subscribe", S: 0, URI: "", Mode: "prefix"})
 	}
 	g := &psGen{nsess: len(c.Sess), strict: strict}
-	ops := rapid.SliceOfN(rapid.Custom(func(t *rapid.T) Op { return g.op(t) }), 1, 40).Draw(t, "ops")
+	ops := rapid.SliceOfN(rapid.Custom(func(t *rapid.T) Op { return g.op(t) }), minHistory(t, 40), 40).Draw(t, "ops")
 	c.Ops = append(c.Ops, ops...)
 	return c
 }
